@@ -45,6 +45,9 @@ pub enum Step {
     PollDrop(u64),
     /// pinned `sleep(d1)`, polled once, then reset to now + d2 and awaited
     Reset { d1: u64, d2: u64 },
+    /// pinned `sleep(d1)`, polled once; the task then waits `wait >= d1` for another timer, so the deadline is
+    /// reached without the sleep being polled; then reset to now + d2 and awaited
+    ResetLate { d1: u64, wait: u64, d2: u64 },
     IntervalNew { period: u64, behavior: Behavior },
     Tick,
     /// awaits the next item of this task's channel; the k-th item is fed at the k-th feed time
@@ -140,6 +143,14 @@ async fn run_script(module: usize, task: usize, steps: Vec<Step>, mut rx: mpsc::
             Step::Reset { d1, d2 } => {
                 let mut s = pin!(sleep(dur(*d1)));
                 let _ = futures::poll!(s.as_mut());
+                s.as_mut().reset(SimTime::now() + dur(*d2));
+                s.await;
+                0
+            }
+            Step::ResetLate { d1, wait, d2 } => {
+                let mut s = pin!(sleep(dur(*d1)));
+                let _ = futures::poll!(s.as_mut());
+                sleep(dur(*wait)).await;
                 s.as_mut().reset(SimTime::now() + dur(*d2));
                 s.await;
                 0
@@ -242,6 +253,10 @@ pub fn reference(case: &Case) -> Vec<LogRec> {
                     Step::PollDrop(_) => 0,
                     Step::Reset { d2, .. } => {
                         now += d2;
+                        0
+                    }
+                    Step::ResetLate { wait, d2, .. } => {
+                        now += wait + d2;
                         0
                     }
                     Step::IntervalNew { period, behavior } => {
@@ -448,7 +463,16 @@ pub fn gen_task(rng: &mut Rng, max_steps: usize) -> Task {
                 }
             }
             8 => steps.push(Step::PollDrop(if rng.chance(1, 6) { u64::MAX } else { d(rng) })),
-            9 => steps.push(Step::Reset { d1: d(rng), d2: d(rng) }),
+            9 => {
+                if rng.chance(1, 2) {
+                    steps.push(Step::Reset { d1: d(rng), d2: d(rng) });
+                } else {
+                    let (d1, d2) = (d(rng), d(rng));
+                    // the other timer ends exactly at the deadline (tie) or after it
+                    let wait = if rng.chance(1, 2) { d1 } else { d1 + d(rng) };
+                    steps.push(Step::ResetLate { d1, wait, d2 });
+                }
+            }
             10..=11 => {
                 // an interval section: only multiples of 10 ms between its ticks, period >= 20 ms, so a tick is
                 // either on time or late by >= 10 ms (outside the implementation's 5 ms grace window)
@@ -532,6 +556,7 @@ pub fn cmd(args: &Args) -> Report {
                     Step::Select { .. } => "steps_select",
                     Step::PollDrop(_) => "steps_poll_then_drop",
                     Step::Reset { .. } => "steps_reset",
+                    Step::ResetLate { .. } => "steps_reset_after_deadline",
                     Step::IntervalNew { .. } => "steps_interval_new",
                     Step::Tick => "steps_interval_tick",
                     Step::Recv => "steps_recv",
